@@ -20,7 +20,7 @@ theorem XClaim.actor {s s' : State} {e : Event} (hA : InvA s) (hN : InvN s) (hX 
   all_goals (try subst ha)
   all_goals (try (rw [‹s.pc _ = _›] at hc hcN))
   all_goals (try (simp only [setPc_pc, upd_same, afterDeadline_pc, afterNotify_pc, childReturn_pc,
-    childWakeNext_pc, freeLoopStart_pc, enterChild_pc, leave_pc, addUser_pc, markCalled_pc,
+    childWakeNext_pc, childScanStart_pc, freeLoopStart_pc, enterChild_pc, leave_pc, addUser_pc, markCalled_pc,
     markFreeing_pc, setAfter_pc, pushObs_pc, publish_pc, delUser_pc]))
   all_goals (try (simp [XClaim, DKX]; done))
   all_goals (try (exact XClaim.afterDeadlinePc hN hX (by assumption) hc))
@@ -28,6 +28,7 @@ theorem XClaim.actor {s s' : State} {e : Event} (hA : InvA s) (hN : InvN s) (hX 
   all_goals (try (simp_all [XClaim, NKX]; done))
   all_goals (try (exact XClaim.childReturnPc hc))
   all_goals (try (exact XClaim.childWakeNextPc hc))
+  all_goals (try (exact XClaim.childLoopStartPc _ hc))
   all_goals (try (exact XClaim.freeLoopStartPc _ _ _ _))
   all_goals (try (exact XClaim.afterNotifyPc hN hX (by assumption) hc))
   -- call nsync_note_expiry
